@@ -302,7 +302,7 @@ ADDED = {
     "C11": "Later additions: every object of a session is observed through every accessor (rotator, matrix, quaternion, rotation vector, axes) at every step; unnormalised axes in from_axes. World rotations given as Euler angles (both axis conventions, degrees / radians).",
     "C12": "Later additions: query / in-place append / query programmes (Sandwich), a table without feature columns, slices with a step, a second pass over group_by / cutby after in-place edits of the first pass, the repository's own tests under a table recorder (thorough). Fortran-ordered positions, 6-row tables, every new object moved in place and back with all other objects watched.",
     "C13": "Later additions: feature order, Float64 values beyond float32, upper-case suffixes, Fortran-ordered positions, NaN and marker-like strings as data. Look-then-rotate-in-place history before saving; a double-precision feature at csv precisions 8 and 9.",
-    "C14": "Later additions: 2-D projection independent of the height of the molecules, low-z molecules. Settings through replace() on a filled simulator, nearest-neighbour paste off the grid.",
+    "C14": "Later additions: 2-D projection independent of the height of the molecules, low-z molecules. Settings through replace() on a filled simulator, nearest-neighbour paste off the grid, components without molecules.",
     "C15": "Later additions: batches mixing numpy and dask tomograms, every binned image compared with the block sum of its own original. Corner-safe loaders with elongated boxes under quarter turns; int16 / int8 tomograms whose block sums leave the type's range. Parent or sibling used before binning; the parent re-loaded afterwards.",
     "C16": "Later additions: Memo.tla (sound design accepted, both hazard designs rejected by TLC) and its call programmes on the four low-pass entry points. int16 / uint8 / float64 images.",
     "C17": "Later additions: fsc_with_halfmaps over weighted one-hot sub-volumes judged by the Averaging acceptor (disjoint halves), Memo.tla programmes on the FSC landscape. FSC as an alignment score (FSCAlignment score / landscape / align): symmetric, gain invariant, bounded, 1 for identical inputs with and without a tilt model, equal to the mean shell value. Boxes up to 24^3 with shell widths off any decimal grid against the formula in double precision; group halves as disjoint plain means.",
